@@ -118,13 +118,34 @@ def check(chk):
     for st in body_walk(uft):
         if isinstance(st, ast.Assign) and isinstance(st.targets[0], ast.Name):
             env_exprs.setdefault(st.targets[0].id, []).append(st.value)
-    try:
-        def pack_low(clock_seq, node):
-            lo = folder.eval(env_exprs['clock_seq_low'][-1], env={'clock_seq': clock_seq})
-            hi = folder.eval(env_exprs['clock_seq_hi_variant'][-1], env={'clock_seq': clock_seq})
-            return (hi << 56) | (lo << 48) | node
-    except KeyError:
-        raise AnalysisError('uuid_from_time: clock_seq packing not recognised')
+    # the six UUID fields as the code computes them, whatever temporaries (or tuple concatenations) it goes through
+    ucalls = [c for c in body_walk(uft) if isinstance(c, ast.Call) and src(c.func) == 'uuid.UUID']
+    if len(ucalls) != 1:
+        raise AnalysisError('uuid_from_time: uuid.UUID(...) construction not found')
+    fkw = [k.value for k in ucalls[0].keywords if k.arg == 'fields']
+    if len(fkw) != 1:
+        raise AnalysisError('uuid_from_time: fields= argument not found')
+
+    def _one_step(e):
+        while isinstance(e, ast.Name) and e.id in env_exprs and len(env_exprs[e.id]) == 1 and e.id not in ('intervals', 'clock_seq', 'node'):
+            e = env_exprs[e.id][0]
+        return e
+
+    def _flat(e):
+        e = _one_step(e)
+        if isinstance(e, ast.Tuple):
+            return [_one_step(x) for x in e.elts]
+        if isinstance(e, ast.BinOp) and isinstance(e.op, ast.Add):
+            return _flat(e.left) + _flat(e.right)
+        raise AnalysisError('uuid_from_time: fields expression not understood: %s' % src(e)[:60])
+    field_exprs = _flat(fkw[0])
+    if len(field_exprs) != 6:
+        raise AnalysisError('uuid_from_time: %d UUID fields found, 6 expected' % len(field_exprs))
+
+    def pack_low(clock_seq, node):
+        hi = folder.eval(field_exprs[3], env={'clock_seq': clock_seq})
+        lo = folder.eval(field_exprs[4], env={'clock_seq': clock_seq})
+        return (hi << 56) | (lo << 48) | node
     consts = {}
     for name in ('LOWEST_TIME_UUID', 'HIGHEST_TIME_UUID'):
         v = m.toplevel_assign(name)
@@ -142,9 +163,17 @@ def check(chk):
         chk.judge(low == want and src(calls[0].args[0]) == 'timestamp', 'C34.uuid', f, '%s: node/clock_seq literals pack to the low 8 bytes of %s (%016x)' % (fn, cname, want),
                   'packed low bytes are %016x, %s has %016x: the bound no longer brackets every time-UUID of that instant in Cassandra\'s byte order' % (low, cname, want))
     chk.judge('clock_seq > 16383' in s and 'raise ValueError' in s, 'C34.uuid', uft, 'clock_seq beyond 14 bits rejected', 'clock_seq range check gone')
-    tl = dict((k, src(v[-1])) for k, v in env_exprs.items())
-    chk.judge(tl.get('time_low') == 'intervals & 4294967295' and tl.get('time_mid') == 'intervals >> 32 & 65535' and tl.get('time_hi_version') == 'intervals >> 48 & 4095', 'C34.uuid', uft,
-              'time fields: low 32 bits, mid 16 bits, high 12 bits of the interval count', 'time field packing changed: %s' % dict((k, tl.get(k)) for k in ('time_low', 'time_mid', 'time_hi_version')))
+    bad_t = []
+    for X in (0, 1, 0x01b21dd213814000, 0x0123456789abcdef, (1 << 60) - 1, 0x0fedcba987654321, 0x00000001ffffffff, 0x0000ffff00000000):
+        try:
+            got = tuple(folder.eval(field_exprs[k_], env={'intervals': X}) for k_ in range(3))
+        except Unfoldable as e_:
+            raise AnalysisError('uuid_from_time: time field expression cannot be folded: %s' % e_)
+        want = (X & 0xffffffff, (X >> 32) & 0xffff, (X >> 48) & 0x0fff)
+        if got != want:
+            bad_t.append((hex(X), got, want))
+    chk.judge(not bad_t and src(field_exprs[5]) == 'node', 'C34.uuid', uft,
+              'time fields: low 32 bits, mid 16 bits, high 12 bits of the interval count (folded for 8 interval values); node last', 'time field packing changed: %s' % (bad_t[:1] or [src(x) for x in field_exprs],))
 
     # a datetime is an instant: its UTC fields, not its wall-clock fields, go into timegm
     tg = [n for n in body_walk(uft) if isinstance(n, ast.Call) and src(n.func) == 'calendar.timegm']
@@ -160,7 +189,14 @@ def check(chk):
     fmts = [n.left.value for n in body_walk(ds) if isinstance(n, ast.BinOp) and isinstance(n.op, ast.Mod) and isinstance(n.left, ast.Constant)]
     chk.judge(fmts == ['%04d-%02d-%02d'] and 'dt.year, dt.month, dt.day' in src(ds) and 'strftime' not in src(ds), 'C34.datefmt', ds, "Date.__str__: '%04d-%02d-%02d' % (year, month, day)",
               'Date is printed with %s: years below 1000 lose their zero padding and no longer parse back' % (fmts or 'strftime'))
-    chk.judge(folder.class_const('Date', 'date_format') == '%Y-%m-%d' and 'strptime(s, self.date_format)' in src(m.func('Date._from_datestring')), 'C34.datefmt', m.cls('Date'), 'Date parses with %Y-%m-%d', 'date format changed')
+    fds = m.func('Date._from_datestring')
+    sp = [c for c in body_walk(fds) if isinstance(c, ast.Call) and isinstance(c.func, ast.Attribute) and c.func.attr == 'strptime']
+    okp = len(sp) == 1 and len(sp[0].args) == 2 and src(sp[0].args[1]) == 'self.date_format'
+    if okp:
+        a0 = sp[0].args[0]
+        # the text handed to strptime is the argument, with one leading '+' removed (as a statement before the call, or as a conditional expression)
+        okp = (isinstance(a0, ast.Name) and a0.id == 's') or (isinstance(a0, ast.IfExp) and src(a0.test) in ("s[0] == '+'", "'+' == s[0]") and src(a0.body) == 's[1:]' and src(a0.orelse) == 's')
+    chk.judge(folder.class_const('Date', 'date_format') == '%Y-%m-%d' and okp, 'C34.datefmt', m.cls('Date'), 'Date parses with %Y-%m-%d', 'date format changed')
     ftt = m.func('Date._from_timetuple')
     chk.judge('self.days_from_epoch = calendar.timegm(t) // Date.DAY' in src(ftt), 'C34.datefmt', ftt, 'days = timegm(timetuple) // 86400 (floor, also before 1970)', 'day count computation changed')
     chk.judge('return self.days_from_epoch * Date.DAY' in src(m.func('Date.seconds')), 'C34.datefmt', m.func('Date.seconds'), 'seconds = days * 86400', 'seconds computation changed')
